@@ -28,6 +28,13 @@ func TestC11(t *testing.T) {
 			c.Feeds = append(c.Feeds, FeedCfg{H: 0, Multi: true})
 		}
 	}
+	// (*WithMeta writes are invisible to view indexing - known finding K01 of C12 - which would show
+	// up here as a view of the *written* collection changing later, when something else bumps it)
+	excluded := 0
+	pr.Exclude = func(op Op, p St, ki *KeyInfo) bool {
+		return excludedBy("C11", op, p, ki) || excludedBy("C12", op, p, ki)
+	}
+	pr.Excluded = &excluded
 	pr.Setup = func(r *Run) {
 		r.IsoProbes = true
 		if err := r.SetupTwin(keys); err != nil {
